@@ -245,3 +245,102 @@ def threshold_menu(K, metric):
             seen.add(t)
             uniq.append(t)
     return uniq, skipped
+
+
+# ---------------------------------------------------------------------------
+# Vectorised variant for the `scale` family (hundreds of state vectors).
+#
+# Same definitions as above, evaluated with numpy broadcasting on the values
+# as stored (float32 -> float64).  All alphabets of the scale inputs are
+# dyadic with few significant bits, so every difference, sum, maximum and
+# square below is exact in float64 and the comparisons are exact; euclidean
+# distances are again compared through their squares.  NaN marks "no
+# distance" and compares False everywhere.
+
+def np_states(series, dim=None, tau=None):
+    """(n_states, d) float64 array of state vectors, NaN = missing."""
+    a = np.asarray(series, dtype=np.float32).astype(np.float64)
+    a = a.reshape(a.shape[0], -1)
+    if dim is None or tau is None:
+        return a
+    assert a.shape[1] == 1
+    x = a[:, 0]
+    n = len(x) - (dim - 1) * tau
+    return np.stack([x[j * tau:j * tau + n] for j in range(dim)], axis=1)
+
+
+def np_keys(X, Y, metric):
+    """Key matrix (distance, or squared distance for euclidean)."""
+    d = np.abs(X[:, None, :] - Y[None, :, :])
+    if metric == "manhattan":
+        return d.sum(axis=2)
+    if metric == "supremum":
+        k = d.max(axis=2)
+        k[np.isnan(d).any(axis=2)] = np.nan
+        return k
+    if metric == "euclidean":
+        return (d * d).sum(axis=2)
+    raise ValueError(metric)
+
+
+def np_key_float(K, metric):
+    return np.sqrt(K) if metric == "euclidean" else K
+
+
+def np_threshold(K, eps, metric):
+    eps = float(eps)
+    if eps <= 0:
+        return np.zeros(K.shape, dtype=int)
+    tk = eps * eps if metric == "euclidean" else eps
+    with np.errstate(invalid="ignore"):
+        return (K < tk).astype(int)
+
+
+def np_rate(K, rate):
+    flat = np.sort(K, axis=None)
+    tk = flat[quantile_index(rate, flat.size)]
+    return (K < tk).astype(int)
+
+
+def np_local_rate(K, rate):
+    rows = np.sort(K, axis=1)
+    tk = rows[:, quantile_index(rate, K.shape[1])]
+    return (K < tk[:, None]).astype(int)
+
+
+def np_tie_free_rows(K):
+    rows = np.sort(K, axis=1)
+    return np.nonzero((np.diff(rows, axis=1) != 0).all(axis=1))[0]
+
+
+def np_std_sq(series, ts):
+    """eps^2 for eps = ts * std(all stored entries), float64."""
+    a = np.asarray(series, dtype=np.float32).astype(np.float64)
+    return float(ts) ** 2 * float(a.var())
+
+
+def np_below_sq(K, sq, metric):
+    """dist < eps given eps^2; also returns the smallest relative gap between
+    a squared distance and eps^2 (boundary analysis)."""
+    D2 = K if metric == "euclidean" else K * K
+    if sq <= 0:
+        return np.zeros(K.shape, dtype=int), 1.0
+    gap = float(np.nanmin(np.abs(D2 - sq))) / sq
+    return (D2 < sq).astype(int), gap
+
+
+def np_joint(Rx, Ry, lag):
+    m = Rx.shape[0] - abs(lag)
+    a, b = (0, lag) if lag >= 0 else (-lag, 0)
+    i = np.arange(m)
+    return Rx[np.ix_(i + a, i + a)] * Ry[np.ix_(i + b, i + b)]
+
+
+def np_inter_system(Rx, CR, Ry):
+    return np.block([[Rx, CR], [CR.T, Ry]])
+
+
+def np_no_diagonal(R):
+    R = np.array(R, dtype=int)
+    R[np.arange(len(R)), np.arange(len(R))] = 0
+    return R
